@@ -2,7 +2,7 @@
 import json, os, shutil, subprocess, sys, tempfile, time, glob
 
 VERIF = os.path.dirname(os.path.dirname(os.path.abspath(__file__)))
-REPO = os.environ.get("VERIF_REPO", "/repo")
+REPO = os.environ.get("VERIF_REPO") or "/repo"
 BUILD = os.path.join(VERIF, ".build")
 HARNESS = os.path.join(VERIF, "harness")
 NPROC = int(os.environ.get("VERIF_WORKERS", "16"))
@@ -278,11 +278,15 @@ def check(pid, tier, seed):
         bname = v.get("build") or binaries[0][0]
         b = dict(binaries).get(bname, binaries[0][1])
         ok = False
-        for attempt in range(2):
+        # normally the first replay reproduces; a violation that depends on something the simulator does
+        # not own inside the code under test (the iteration order of a Go map deciding the order of
+        # writes, say) may need a few executions
+        for attempt in range(10):
             rc, info = replay_once(b, v["replay_path"], cfg.get("env"))
             vv = (info or {}).get("violation")
             if rc == 1 and vv and vv["oracle"] == v["violation"]["oracle"]:
                 ok = True
+                v["replay_attempts"] = attempt + 1
                 break
         if not ok:
             die("replay of %s did not reproduce the violation (rc=%s, got %s)" % (v["replay_path"], rc, json.dumps(info)))
@@ -390,6 +394,43 @@ def cmd_selftest_determinism(ids):
                 print("   differing run indices:", diff[:10])
     return 2 if bad else 0
 
+def cmd_selftest_mutants(names):
+    """apply every seeded change to a scratch copy of /repo and require the owning check to fail (exit 1)."""
+    import glob
+    bad = 0
+    here = os.path.join(VERIF, "seeded")
+    for d in sorted(glob.glob(os.path.join(here, "*"))):
+        meta = os.path.join(d, "meta.json")
+        if not os.path.isfile(meta) or (names and os.path.basename(d) not in names):
+            continue
+        pid = json.load(open(meta))["breaks_property"]
+        scratch = tempfile.mkdtemp(prefix="verif-mutant-")
+        try:
+            copy = os.path.join(scratch, "repo")
+            shutil.copytree("/repo", copy, ignore=shutil.ignore_patterns(".git"))
+            rc, o = run(["patch", "-p1", "-s", "-i", os.path.join(d, "patch.diff")], cwd=copy)
+            if rc != 0:
+                print("%s: patch does not apply any more:\n%s" % (os.path.basename(d), o))
+                bad += 1
+                continue
+            ev = os.path.join(VERIF, "evidence", pid + ".json")
+            keep = open(ev).read() if os.path.exists(ev) else None
+            env = goenv()
+            env.update(VERIF_REPO=copy, VERIF_REPLAY_DIR=os.path.join(scratch, "replays"))
+            os.makedirs(env["VERIF_REPLAY_DIR"])
+            t0 = time.time()
+            p = subprocess.run([os.path.join(VERIF, "check"), pid, "quick"], env=env, stdout=subprocess.PIPE, stderr=subprocess.STDOUT, text=True)
+            if keep is not None:
+                open(ev, "w").write(keep)
+            first = [l for l in p.stdout.splitlines() if l.startswith("  ")][:1]
+            verdict = "caught" if p.returncode == 1 else ("HARNESS-ERROR" if p.returncode == 2 else "MISSED")
+            print("%-55s %s by %s quick in %.0fs %s" % (os.path.basename(d), verdict, pid, time.time() - t0, (first[0].strip()[:110] if first else "")))
+            if p.returncode != 1:
+                bad += 1
+        finally:
+            shutil.rmtree(scratch, ignore_errors=True)
+    return 2 if bad else 0
+
 def main(argv):
     if not argv:
         print(__doc__)
@@ -398,6 +439,8 @@ def main(argv):
         return cmd_setup()
     if argv[0] == "selftest-determinism":
         return cmd_selftest_determinism(argv[1:])
+    if argv[0] == "selftest-mutants":
+        return cmd_selftest_mutants(argv[1:])
     pid = argv[0]
     if "--replay" in argv:
         return cmd_replay(pid, argv[argv.index("--replay") + 1])
